@@ -1,6 +1,6 @@
 #!/bin/bash
 # tools/run_all.sh [tier] — run every claimed check in parallel (4 at a time), print one line each
-cd /verif
+cd "$(dirname "$0")/.."
 tier=${1:-quick}
 ids=$(python3 -c "import json;print(' '.join(c['property_id'] for c in json.load(open('MANIFEST.json'))['checks']))")
 mkdir -p out/runall
